@@ -3,6 +3,9 @@ from __future__ import annotations
 
 import ast
 
+from ..cfg import cfg_of as cfg_of_, node_calls as node_calls_, reach as reach_
+from ..model import short as short_
+
 from ..esp import UNKNOWN, NEW, OLD, SELF, run_function, val_str, valuations
 from ..model import body_nodes, Repo, norm
 from .common import dispatch_ops, op_table, table_stats, trace_str
@@ -71,6 +74,8 @@ def check(repo: Repo, rep, tier):
         "clone() returns copy.deepcopy(<its parameter>) on every returning path, each such path has taken the '<param> == <copy>' true edge, "
         "and the false edge raises UsageError",
     )
+    _uec(repo, rep)
+    store_before_clone(repo, rep)
     ops = dispatch_ops(repo)
     clone_sinks = set()
     for op in ops:
@@ -146,6 +151,40 @@ def has_clone(t) -> bool:
     return False
 
 
+def store_before_clone(repo: Repo, rep):
+    rep.rule(
+        "R-STORE-WITH-CLONE",
+        "a comparison whose value is rejected (clone() raises the usage error) leaves the snapshot as it was: in the operation methods no store to "
+        "`self._new_value` of something that did not come through clone() is followed, later in the same call, by a clone() - the first store of a "
+        "collection is `[clone(item)]`, not `[]` followed by an append.  Otherwise a snapshot whose only compared value was rejected is 'recorded' as "
+        "empty: create writes `snapshot([])`, trim deletes every element",
+    )
+    n = 0
+    for op in dispatch_ops(repo):
+        f = op.func
+        cfg = cfg_of_(f)
+        stores = [s_ for s_ in cfg.stmts(ast.Assign) if any(isinstance(t, ast.Attribute) and t.attr == "_new_value" for t in s_.ast.targets)]
+        clones = [n_ for n_ in cfg.live for c in node_calls_(n_) if isinstance(c.func, ast.Name) and c.func.id == "clone"]
+        for s_ in stores:
+            n += 1
+            if any(isinstance(x, ast.Call) and isinstance(x.func, ast.Name) and x.func.id == "clone" for x in ast.walk(s_.ast.value)):
+                rep.ok("R-STORE-WITH-CLONE", f, s_.ast, "the stored value comes through clone()")
+                continue
+            after = reach_(cfg, [b for b, l in s_.succ if l != "exc"])
+            later = [c for c in clones if c in after and c is not s_]
+            if later:
+                rep.violation("R-STORE-WITH-CLONE", f, s_.ast, f"{f.qualname} stores `{short_(s_.ast, 40)}` and calls clone() afterwards: when clone() rejects the value (not equal to its copy) the snapshot already counts as recorded - `snapshot()` is created as an empty collection, an existing one is trimmed to nothing", construct=f"{f.qualname}:store-before-clone")
+            else:
+                rep.ok("R-STORE-WITH-CLONE", f, s_.ast, "no clone() after this store")
+    rep.floor("R-STORE-WITH-CLONE", "stores to _new_value in the operation methods", n, 3)
+
+
+def _uec(repo, rep):
+    from .C07 import usage_error_class
+
+    usage_error_class(repo, rep)
+
+
 def clone_def(repo: Repo, rep):
     f = repo.func("_snapshot/generic_value.py::clone")
     if not f.params:
@@ -195,7 +234,11 @@ def clone_def(repo: Repo, rep):
             ok = False
             continue
         eq = [(t, val) for t, val in o.p.assume if t[0] == "cmp" and t[1] in ("==", "!=") and {t[2], t[3]} == {("param", pname), o.ret}]
-        good = any((t[1] == "==" and val) or (t[1] == "!=" and not val) for t, val in eq)
+        good = any((t[1] == "==" and val) for t, val in eq)
+        if not good and any((t[1] == "!=" and not val) for t, val in eq):
+            rep.violation("R-CLONE-DEF", f, f.node, "clone checks its copy with `!=`: a class can define __eq__ (dataclass) and inherit an unrelated __ne__ - for such a value `obj != copy` and `obj == copy` are both False and the unequal copy is recorded; the check has to be the `==` the later comparisons use", trace_str(o), construct="selfcheck-ne")
+            ok = False
+            continue
         if not good:
             rep.violation("R-CLONE-DEF", f, f.node, "clone returns the copy without having checked that it equals the original (a wrong copy is recorded silently)", trace_str(o), construct="selfcheck")
             ok = False
